@@ -311,15 +311,19 @@ Fixpoint alloc_ops (ops : list op) : M unit :=
   | o :: rest => alloc_op o ;;; alloc_ops rest
   end.
 
-(* RegTape::new::<N>(ssa): returns (tape root-first as RegTape::tape, slot_count).
-   RegisterAllocator::new asserts N <= 255. *)
-Definition reg_tape_new (n : nat) (ssa : list op) : result (list op * nat) :=
+(* Allocation of a whole root-first tape with an `allocations` vector of [size]
+   entries.  RegisterAllocator::new asserts N <= 255. *)
+Definition reg_tape_alloc (n size : nat) (ssa : list op) : result (list op * nat) :=
   if Nat.ltb 255 n then Err 31 else
   if Nat.eqb n 0 then Err 32 else   (* Lru::new: (i + 1) % 0 *)
-  match alloc_ops ssa (alloc_new n (length ssa)) with
+  match alloc_ops ssa (alloc_new n size) with
   | Ok (_, s) => Ok (rev (a_out s), a_slot_count s)
   | Err c => Err c
   end.
+
+(* RegTape::new::<N>(ssa): returns (tape root-first as RegTape::tape, slot_count). *)
+Definition reg_tape_new (n : nat) (ssa : list op) : result (list op * nat) :=
+  reg_tape_alloc n (length ssa) ssa.
 
 End Alloc.
 Arguments ast : clear implicits.
